@@ -169,6 +169,22 @@ theorem setbatch_names_conflict_counterexample :
     exact not_coherent_of_child _ (.node [3] none none [("g", .node [3, 2] none (some [none, some "x"]) [])]) "c"
       (by simp [getPath, kget]) (by simp [M.shape, takeEq])
 
+/-- The documented exclusion, stated so that it is visible: a batch size assigned through a direct handle to a nested
+tensordict is accepted although it no longer extends the parent's (the child has no back-pointer) — exactly the case
+`handleOk` rules out in `step_coherent_partial`. -/
+theorem shrink_via_child_out_of_scope :
+    let t : M := .node [2] none none [("n", .node [2] none none [])]
+    Coherent t ∧ ¬ handleOk [3] ["n"] t ∧ (step t (.setBatch ["n"] [3])).2 = .ok ∧ ¬ Coherent (step t (.setBatch ["n"] [3])).1 := by
+  have hev : step (.node [2] none none [("n", .node [2] none none [])]) (.setBatch ["n"] [3])
+      = (.node [2] none none [("n", .node [3] none none [])], .ok) := by
+    simp [step, atPath, kget, kset, setBatchM, checkNewBs, growKids, finishResize]
+  refine ⟨?_, by simp [handleOk, takeEq], by rw [hev], ?_⟩
+  · refine Coherent.node _ _ _ _ (by simp) ?_ ?_
+    · intro k c hm; simp at hm; obtain ⟨_, rfl⟩ := hm; exact ⟨by simp [M.shape, takeEq], by simp⟩
+    · intro k c hm; simp at hm; obtain ⟨_, rfl⟩ := hm; exact Coherent.node _ _ _ _ (by simp) (by simp) (by simp)
+  · rw [hev]
+    exact not_coherent_of_child _ (.node [3] none none []) "n" (by simp [getPath, kget]) (by simp [M.shape, takeEq])
+
 /-- non-vacuity: a coherent nested tree and an incoherent one -/
 example : Coherent (.node [3] (some 0) (some [some "x"]) [("a", .leaf [3, 2] 0), ("n", .node [3, 2] (some 0) none [])]) := by
   refine Coherent.node _ _ _ _ (by simp) ?_ ?_
